@@ -53,6 +53,8 @@ Checks(e) ==
                          CoreWasFree           |-> e[9] = 15]
     \* <<"spare", x, y, p, state before, application before, state after, application after>>
     [] e[1] = "spare" -> [UnrequestedCoreUntouched |-> <<e[5], e[6]>> = <<e[7], e[8]>>]
+    \* tables minimised to the space the probe reported, and a machine that accepts every command, load
+    [] e[1] = "failed" -> [DeploymentCompletes |-> FALSE]
     [] e[1] = "done" -> [Closed |-> TRUE]
     [] OTHER -> [UnknownEvent |-> FALSE]
 
